@@ -107,6 +107,7 @@ def handle (c : Case) : CaseOut := Id.run do
     | "T" :: n :: _ => tyName := n
     | "v" :: ws => vecs := vecs.push (parseVec ws)
     | ["e", h] => hasTail := true; tail := tail.push h
+    | "W" :: _ => pure ()      -- warm-up sort of another element type (family sort-history): not observed
     | _ => vecs := vecs.push none
   if hasTail then vecs := vecs.push (parseVec tail.toList)
   -- the implementation's `D <i> out …` lines, indexed by vector
